@@ -4,6 +4,7 @@ package deviants
 
 import (
 	"errors"
+	"fmt"
 	"io"
 	"path"
 	"sync"
@@ -26,7 +27,7 @@ var Catalogue = []string{
 	// an entry left behind or missing
 	"Rename:leaves-old", "Remove:removes-sibling-too", "Mkdir:extra-entry", "OpenFile:create-extra-entry",
 	"file.ReadDir:drops-first", "file.ReadDir:duplicates-first",
-	"Rename:drops-entry", "MkdirAll:drops-leaf",
+	"Rename:drops-entry", "MkdirAll:drops-leaf", "Rename:drops-empty-files", "Remove:nonempty-refused-after-emptying",
 	// wrong permission bits, size or bytes
 	"Stat:perm", "file.Stat:perm", "Mkdir:perm", "OpenFile:create-perm", "Chmod:perm", "Stat:dir-as-file",
 	"Stat:size", "file.Stat:size", "file.Read:bytes", "file.ReadAt:bytes", "file.Write:corrupts", "file.WriteAt:offset", "file.Seek:end-off-by-one", "file.Stat:name", "Stat:name", "file.ReadDir:wrong-kind",
@@ -35,6 +36,8 @@ var Catalogue = []string{
 	"Open:missing-wrong-error", "Stat:missing-wrong-error", "Mkdir:existing-wrong-error", "Mkdir:missing-parent-wrong-error", "Remove:nonempty-wrong-error",
 	"Remove:missing-wrong-error", "Rename:missing-wrong-error", "OpenFile:dir-write-wrong-error", "file.Close:second-ok", "Open:invalid-path-accepted", "file.Seek:negative-accepted", "file.Write:readonly-accepted", "file.Truncate:negative-accepted",
 	"Mkdir:existing-accepted", "Remove:nonempty-accepted", "OpenFile:missing-created",
+	// right kind and path, wrong concrete type: the *PathError wrapped by an annotating layer
+	"Mkdir:error-wrapped", "Remove:error-wrapped", "Open:error-wrapped", "Rename:error-wrapped",
 	// wrong error path
 	"Open:error-path", "Stat:error-path", "Mkdir:error-path", "Remove:error-path", "Rename:error-paths",
 	// run with Constraints.AllowErrPathPrefix (suffix "@prefix"): a prefix ending at an element boundary is
@@ -142,6 +145,8 @@ func (f *FS) OpenFile(name string, flag int, perm hackpadfs.FileMode) (hackpadfs
 			err = reKind(err, hackpadfs.ErrPermission)
 		case f.is("OpenFile:dir-write-wrong-error") && errors.Is(err, hackpadfs.ErrIsDir):
 			err = reKind(err, hackpadfs.ErrNotExist)
+		case f.is("Open:error-wrapped"):
+			err = fmt.Errorf("layer: %w", err)
 		case f.is("Open:error-path"):
 			err = rePath(err, "x/"+name)
 		case f.is("ref:prefixed-paths") && hackpadfs.ValidPath(name):
@@ -185,6 +190,8 @@ func (f *FS) Mkdir(name string, perm hackpadfs.FileMode) error {
 		return nil
 	}
 	switch {
+	case f.is("Mkdir:error-wrapped"):
+		err = fmt.Errorf("layer: %w", err)
 	case f.is("Mkdir:existing-wrong-error") && errors.Is(err, hackpadfs.ErrExist):
 		err = reKind(err, hackpadfs.ErrNotExist)
 	case f.is("Mkdir:missing-parent-wrong-error") && errors.Is(err, hackpadfs.ErrNotExist):
@@ -238,7 +245,19 @@ func (f *FS) Remove(name string) error {
 		}
 		return nil
 	}
+	if f.is("Remove:nonempty-refused-after-emptying") && errors.Is(err, hackpadfs.ErrNotEmpty) {
+		// the right refusal, noticed only after the files inside have been deleted
+		if ents, derr := hackpadfs.ReadDir(f.inner, name); derr == nil {
+			for _, e := range ents {
+				if !e.IsDir() {
+					_ = f.inner.Remove(path.Join(name, e.Name()))
+				}
+			}
+		}
+	}
 	switch {
+	case f.is("Remove:error-wrapped"):
+		err = fmt.Errorf("layer: %w", err)
 	case f.is("Remove:nonempty-wrong-error") && errors.Is(err, hackpadfs.ErrNotEmpty):
 		err = reKind(err, hackpadfs.ErrNotExist)
 	case f.is("Remove:missing-wrong-error") && errors.Is(err, hackpadfs.ErrNotExist):
@@ -295,12 +314,20 @@ func (f *FS) Rename(oldname, newname string) error {
 	err := f.inner.Rename(oldname, newname)
 	switch {
 	case err == nil:
+		if f.is("Rename:drops-empty-files") && oldname != newname {
+			// a rename-by-copy whose destination only comes into being with the first byte
+			if info, serr := f.inner.Stat(newname); serr == nil && info.Mode().IsRegular() && info.Size() == 0 {
+				_ = f.inner.Remove(newname)
+			}
+		}
 		if f.is("Rename:drops-entry") && oldname != newname {
 			// reports success, but the entry is gone under both names
 			_ = hackpadfs.RemoveAll(f.inner, newname)
 		}
 	case f.is("Rename:missing-wrong-error") && errors.Is(err, hackpadfs.ErrNotExist):
 		err = reKind(err, hackpadfs.ErrExist)
+	case f.is("Rename:error-wrapped"):
+		err = fmt.Errorf("layer: %w", err)
 	case f.is("Rename:error-paths"):
 		var le *hackpadfs.LinkError
 		if errors.As(err, &le) {
